@@ -37,6 +37,13 @@ func (v Value) Equals(b Value) bool {
 	return !v.Less(b) && !b.Less(v)
 }
 
+// Same returns true if both values have the same kind and the same data.
+// Unlike Equals, strings are compared case sensitive and numbers by their
+// text, so a stored value is only left alone when it reads back identically.
+func (v Value) Same(b Value) bool {
+	return v.kind == b.kind && v.data == b.data
+}
+
 func (v Value) Kind() Kind {
 	return v.kind
 }
